@@ -427,6 +427,7 @@ func runCase(c Case) (vkit.Info, error) {
 				}
 			}
 			sc := gate.New()
+			sc.Strict = true // the tasks never block on each other: one RPC (and its model update) at a time
 			w.sched = sc
 			if op.Fail != "" {
 				w.mu.Lock()
